@@ -3,7 +3,7 @@
    Assumptions only.  Elementary rows come from Gen/Types.v, Gen/CodecFacts.v. *)
 From Coq Require Import String.
 From PV Require Import Base.Bytes Base.Res Base.Proto Gen.Types Model.Codec Model.CodecDom.
-From PV Require Import Proofs.CodecRT Proofs.CodecRTAll.
+From PV Require Import Proofs.CodecRT Proofs.CodecRTAll Proofs.CodecRTFloat.
 Open Scope Z_scope.
 
 (* Full strength: for every type the constructors are documented to build and every value its
@@ -99,7 +99,7 @@ Proof. vm_compute. split; reflexivity. Qed.
    the documented domain is one of the deviations above), or data follows a type whose decoder
    reads to the end of the buffer ([greedy] = [doc_greedy] plus PCCC_STRING). *)
 Definition C06_guard (t : ty) (v : val) (rest : bytes) : bool :=
-  negb (no_stag t && wf_ty t && in_dom t v) || (greedy t && match rest with [] => false | _ => true end).
+  negb (wf_ty t && in_dom t v) || (greedy t && match rest with [] => false | _ => true end).
 
 Theorem C06_guarded :
   (forall t v rest, C06_guard t v rest = false -> roundtrip_at t v rest) /\ struct_dict_positional_law.
@@ -107,11 +107,18 @@ Proof.
   split.
   - intros t v rest Hg. unfold C06_guard in Hg. apply Bool.orb_false_elim in Hg as [Hg Hr].
     apply Bool.negb_false_iff in Hg.
-    apply andb_prop in Hg as [Hg Hd]. apply andb_prop in Hg as [Hn Hwf].
-    apply (roundtrip_no_stag t v rest Hn Hwf Hd). intros Hgr. rewrite Hgr in Hr. now destruct rest.
+    apply andb_prop in Hg as [Hwf Hd].
+    apply (roundtrip t v rest Hwf Hd). intros Hgr. rewrite Hgr in Hr. now destruct rest.
   - exact struct_dict_positional.
 Qed.
 Print Assumptions C06_guarded.
+
+(* REAL "to IEEE precision": the normal form of an in-domain REAL value is Flocq's binary32
+   rounding (to nearest, ties to even) of the double, embedded back exactly.  This theorem alone
+   depends on the stdlib real-number axioms (through Flocq). *)
+Theorem C06_real_precision : forall b, real_precision_statement b.
+Proof. exact real_precision. Qed.
+Print Assumptions C06_real_precision.
 
 (* non-vacuity: a nested structure of arrays of strings with an unnamed member, encoded from a
    dict, followed by other data; an unbounded array; and the identity object *)
@@ -124,6 +131,19 @@ Definition ex_ty : ty :=
 Definition ex_val : val :=
   VDict [(Some [110], VInt 513); (None, VInt (-1)); (Some [115], VList [VStr [97; 98]; VStr []; VStr [99]]);
          (Some [102], VStr [120; 121; 122; 119]); (Some [114], VFloat 0x3fb999999999999a)].
+(* a Logix template: DINT at 0, hidden SINT host at 4 carrying two BOOL members, a string at 8 *)
+Definition ex_stag : ty :=
+  TStructTag [((Some [120], 0%nat), ty_named "DINT"); ((Some [90; 104], 4%nat), ty_named "SINT");
+              ((Some [115], 8%nat), TFixedStr 4 false 4 4)]
+             [([98; 48], (4%nat, 0%nat)); ([98; 55], (4%nat, 7%nat))] [[90; 104]] 16.
+Definition ex_stag_val : val :=
+  VDict [(Some [120], VInt (-5)); (Some [115], VStr [97; 98]); (Some [98; 48], VBool true); (Some [98; 55], VBool true)].
+Example C06_nonvacuous_structtag :
+  C06_guard ex_stag ex_stag_val [1] = false
+  /\ encode ex_stag ex_stag_val = Ok [251; 255; 255; 255; 129; 0; 0; 0; 2; 0; 0; 0; 97; 98; 0; 0]
+  /\ decode ex_stag ([251; 255; 255; 255; 129; 0; 0; 0; 2; 0; 0; 0; 97; 98; 0; 0] ++ [1]) = Ok (ex_stag_val, [1]).
+Proof. vm_compute. repeat split. Qed.
+
 Example C06_nonvacuous :
   C06_guard ex_ty ex_val [7; 7] = false /\ doc_dom ex_ty ex_val = true
   /\ encode ex_ty ex_val = Ok [1; 2; 255; 2; 0; 97; 98; 0; 0; 3; 0; 0; 0; 120; 121; 122; 0; 205; 204; 204; 61]
